@@ -356,6 +356,49 @@ def _inherit(_):
     return []
 
 
+def _inherit_outside(_):
+    """Headers *outside* the code base (reached through -I) are parsed on first inclusion and must inherit the
+    language of the including Fortran file, at every level of a nested chain, whatever their extension.  (For
+    headers that are code-base members the pinned tree does not do this - see _inherit, informational.)"""
+    from codebasin import CodeBase, finder
+    from ..core import codebase
+
+    base = env.fresh_dir("c17o")
+    body = "! a comment\ny = 2 ! trailing\n#ifdef GPU\n!$omp target\nz = 'a!b' // &\n  'c'\n#else\n! nothing here\nw = 4\n#endif\n"
+    files = {"src/main.F90": '#include "config.h"\nx = 1\n', "include/config.h": '! cfg comment\n#include "decls.fi"\nc = 3 ! t\n', "include/decls.fi": body,
+             "src/direct.f90": body}
+    codebase.write_tree(base, files)
+    root = os.path.join(base, "src")
+    out = []
+    for defs in ([], ["GPU"]):
+        cfg = {"p": [{"file": os.path.join(root, "main.F90"), "defines": defs, "include_paths": [os.path.join(base, "include")], "include_files": []},
+                     {"file": os.path.join(root, "direct.f90"), "defines": defs, "include_paths": [], "include_files": []}]}
+        try:
+            st = finder.find(root, CodeBase(root), cfg)
+        except Exception as e:  # noqa
+            out.append(Failure("language-not-inherited", {"files": files, "defines": defs}, expected="analysis succeeds", observed=f"{type(e).__name__}: {e}"))
+            continue
+
+        def used(path):
+            m = st.get_map(path)
+            t = st.get_tree(path)
+            counted, sel = set(), set()
+            for node in t.walk():
+                for ln in getattr(node, "lines", None) or []:
+                    counted.add(ln)
+                    if "p" in m[node]:
+                        sel.add(ln)
+            return sorted(counted), sorted(sel)
+
+        nested = used(os.path.join(base, "include/decls.fi"))
+        direct = used(os.path.join(root, "direct.f90"))
+        cfgh = used(os.path.join(base, "include/config.h"))
+        if nested != direct or cfgh[0] != [2, 3]:
+            out.append(Failure("language-not-inherited", {"files": files, "defines": defs},
+                               expected={"decls.fi (counted, selected) as direct.f90": direct, "config.h counted": [2, 3]}, observed={"decls.fi": nested, "config.h counted": cfgh[0]}))
+    return out
+
+
 def _mk(tv):
     return mk_failure(*tv)
 
@@ -381,6 +424,7 @@ def run(tier):
         rep.add(r[2])
     # informational only (the property does not state language inheritance for included headers): see DESIGN.md Appendix B
     inh = _inherit(None)
+    rep.add(_inherit_outside(None))
     cj = sum(r[0] for r in cres)
     rep.coverage.update({
         "states": sinfo["states"], "transitions": sinfo["transitions"], "traces_validated_against_impl": sinfo["transitions"] + sinfo["eof_checks"] + cj,
@@ -409,4 +453,13 @@ def replay(witness, kind=None):
         return {"violates": j is not None, "well_formed": exp is not None, "detail": j}
     if "program" in witness:
         return c01.replay(witness)
-    return {"violates": bool(_inherit(None))}
+    if "lines" in witness and "defines" in witness:
+        from codebasin import CodeBase, finder
+        d = env.fresh_dir("c17r")
+        path = os.path.join(d, "t.F90")
+        with open(path, "w") as f:
+            f.write("\n".join(witness["lines"]) + "\n")
+        st = finder.find(d, CodeBase(d), {"p": [{"file": path, "defines": witness["defines"], "include_paths": [], "include_files": []}]})
+        used = sorted(ln for node, pl in st.get_map(path).items() if "p" in pl for ln in (getattr(node, "lines", None) or []))
+        return {"violates": None, "attributed_lines": used}
+    return {"violates": bool(_inherit_outside(None))}
